@@ -171,6 +171,33 @@ func tickMonitor(c TickCase, r tickResult) []core.Violation {
 	for _, tb := range c.Batches {
 		byKey[tb.Key] = tb
 	}
+	// C04 at a tick: every open batch is afterwards either still open or was handed over (a non-empty one
+	// to a worker, an empty one as its transaction counts), never both, never neither
+	if r.ok {
+		out := map[string]int{}
+		for _, e := range r.evs {
+			if e.Kind == "batch" || e.Kind == "empty" {
+				out[e.PKey]++
+			}
+		}
+		stillOpen := map[string]bool{}
+		for _, k := range r.left {
+			stillOpen[k] = true
+		}
+		for _, tb := range c.Batches {
+			switch {
+			case out[tb.Key] == 0 && !stillOpen[tb.Key]:
+				vs = append(vs, core.Violation{Property: "C04", Signature: "tick/open-batch-vanished", Case: c,
+					What: fmt.Sprintf("batch %q (%d record(s)) was open before the tick; afterwards it is neither open nor was it handed to a worker or reported: its records and transaction counts are lost (%d batch(es) flushed, %d left open)", tb.Key, len(tb.Sizes), len(out), len(r.left))})
+			case out[tb.Key] > 0 && stillOpen[tb.Key]:
+				vs = append(vs, core.Violation{Property: "C04", Signature: "tick/flushed-batch-still-open", Case: c,
+					What: fmt.Sprintf("batch %q was handed over at the tick and is still registered as open: its records can be handed over again", tb.Key)})
+			case out[tb.Key] > 1:
+				vs = append(vs, core.Violation{Property: "C04", Signature: "tick/batch-handed-over-twice", Case: c,
+					What: fmt.Sprintf("batch %q was handed over %d times at one tick", tb.Key, out[tb.Key])})
+			}
+		}
+	}
 	size := func(tb TickBatch) int64 {
 		var s int64
 		for _, x := range tb.Sizes {
